@@ -238,26 +238,38 @@ func LibStacks() []string {
 	return out
 }
 
-// ConfirmHang implements the hang rule: two dumps `gap` apart with identical parked library stacks
-// and no log growth in between.
+// ConfirmHang implements the hang rule for Close(): the goroutine executing Dcp.Start()/close() is
+// parked at the same place in two dumps `gap` apart. (Background traffic such as config polling keeps
+// the log growing, so log growth is not used.)
 func ConfirmHang(l *evlog.Log, gap time.Duration) (bool, []string) {
-	a := LibStacks()
-	n := l.Len()
-	time.Sleep(gap)
-	b := LibStacks()
-	if l.Len() != n {
-		return false, b
+	pick := func() []string {
+		var out []string
+		for _, g := range strings.Split(Stacks(), "\n\n") {
+			if strings.Contains(g, "go-dcp.(*dcp).Start") || strings.Contains(g, "go-dcp.(*dcp).close") {
+				lines := strings.Split(g, "\n")
+				if len(lines) > 24 {
+					lines = lines[:24]
+				}
+				out = append(out, strings.Join(lines, "\n"))
+			}
+		}
+		return out
 	}
 	norm := func(s []string) string {
 		var o []string
 		for _, g := range s {
-			// strip goroutine ids / durations in the header line
 			ls := strings.SplitN(g, "\n", 2)
 			if len(ls) == 2 {
 				o = append(o, ls[1])
 			}
 		}
 		return strings.Join(o, "|")
+	}
+	a := pick()
+	time.Sleep(gap)
+	b := pick()
+	if len(a) == 0 || len(b) == 0 {
+		return false, b
 	}
 	return norm(a) == norm(b), b
 }
